@@ -1,0 +1,51 @@
+//go:build verif
+
+package platform
+
+// Contracts for the govc verifier (/verif). This file contains comments only;
+// it does not change the compiled package.
+//
+// The platform key trie maps (instance name prefix, platform properties) to an
+// integer. Abstract view: triemap(t)[k] is 1 + the value stored for exactly
+// key k in trie t, 0 if k is not in the trie. Set and Remove are described by
+// that view (trusted: the nested map of instance name tries is not verified
+// against it); the look-ups are verified against the instance name trie of
+// bb-storage: an exact look-up asks it for an exact match, a prefix look-up
+// for the longest prefix, and a platform nobody registered yields -1 (C05:
+// requests for which no queue exists are rejected).
+
+//@ ghost map triemap(ref) intmap
+
+//@ stub (*github.com/buildbarn/bb-storage/pkg/digest.InstanceNameTrie).GetExact
+//@   pure
+//@   ensures r0 == uf("instancenametrie.exact", arg0, arg1)
+//@ stub (*github.com/buildbarn/bb-storage/pkg/digest.InstanceNameTrie).GetLongestPrefix
+//@   pure
+//@   ensures r0 == uf("instancenametrie.longestprefix", arg0, arg1) && r0 >= -1
+//@ stub (*github.com/buildbarn/bb-storage/pkg/digest.InstanceNameTrie).ContainsExact
+//@   pure
+//@   ensures r0 == (uf("instancenametrie.exact", arg0, arg1) >= 0)
+
+//@ func (*Trie).Set
+//@   props C05
+//@   trusted -- abstract view of the trie; the nested map of instance name tries is not verified against it
+//@   modifies triemap[t]
+//@   ensures forall k ref :: triemap[t][k] == ite(k == key, value + 1, old(triemap[t][k]))
+//@ func (*Trie).Remove
+//@   props C05
+//@   trusted -- abstract view of the trie
+//@   modifies triemap[t]
+//@   ensures forall k ref :: triemap[t][k] == ite(k == key, 0, old(triemap[t][k]))
+
+//@ func (*Trie).GetExact
+//@   props C05
+//@   ensures exact-match-only: r0 == ite(key.platform in t.platforms, uf("instancenametrie.exact", t.platforms[key.platform], key.instanceNamePrefix), -1)
+//@   ensures_assumed r0 == triemap[t][key] - 1 -- abstract view of the trie (representation relation with the nested maps, not verified)
+//@ func (*Trie).ContainsExact
+//@   props C05
+//@   ensures exact-match-only: r0 == (key.platform in t.platforms && uf("instancenametrie.exact", t.platforms[key.platform], key.instanceNamePrefix) >= 0)
+//@   ensures_assumed r0 == (triemap[t][key] > 0) -- abstract view of the trie
+//@ func (*Trie).GetLongestPrefix
+//@   props C05
+//@   ensures longest-registered-prefix-of-the-same-platform: r0 == ite(key.platform in t.platforms, uf("instancenametrie.longestprefix", t.platforms[key.platform], key.instanceNamePrefix), -1)
+//@   ensures at-least-minus-one: r0 >= -1
